@@ -14,6 +14,7 @@ import (
 	"os"
 	"path/filepath"
 	"runtime/debug"
+	"sync"
 	"testing"
 
 	"github.com/folbricht/desync"
@@ -32,6 +33,7 @@ type Case struct {
 	AddRoot   bool   `json:"add_root,omitempty"`   // tar: stream without root entry + TarReaderOptions.AddRoot
 	DotPrefix bool   `json:"dot_prefix,omitempty"` // tar: member names start with "./"
 	Root      Spec   `json:"root"`
+	Conc      int    `json:"conc,omitempty"` // synth: additionally pack the tree this many times concurrently
 }
 
 // ------------------------------------------------------------------ generator
@@ -169,6 +171,9 @@ func genNode(t *rapid.T, src string, depth int, kind string, b *budget, chain in
 func genCase(t *rapid.T) Case {
 	var c Case
 	c.Src = rapid.SampledFrom([]string{"synth", "synth", "synth", "synth", "disk", "disk", "tar", "tar"}).Draw(t, "src")
+	if c.Src == "synth" && rapid.IntRange(0, 3).Draw(t, "conc?") == 0 {
+		c.Conc = rapid.IntRange(2, 8).Draw(t, "conc")
+	}
 	c.Order = rapid.SampledFrom([]string{"sorted", "given"}).Draw(t, "order")
 	switch c.Src {
 	case "synth":
@@ -281,6 +286,40 @@ func run(c Case) (o hx.Outcome) {
 		}
 		want = tree.listing()
 		err = desync.Tar(context.Background(), &out, newSynthFS(tree, rp))
+		if err == nil && c.Conc > 1 {
+			// several Tar calls at once in one process (library / server use): each must produce
+			// the same, valid archive as the call that ran alone
+			type res struct {
+				b   []byte
+				err error
+			}
+			results := make([]res, c.Conc)
+			var wg sync.WaitGroup
+			for g := 0; g < c.Conc && g < 16; g++ {
+				wg.Add(1)
+				go func(g int) {
+					defer wg.Done()
+					defer func() {
+						if r := recover(); r != nil {
+							results[g].err = fmt.Errorf("panic: %v", r)
+						}
+					}()
+					var b bytes.Buffer
+					results[g].err = desync.Tar(context.Background(), &b, newSynthFS(tree, rp))
+					results[g].b = b.Bytes()
+				}(g)
+			}
+			wg.Wait()
+			o.Class("concurrent-tar")
+			for g, r := range results[:min(c.Conc, 16)] {
+				if r.err != nil {
+					o.Fail("C13:concurrent:tar-failed", "Tar call %d of %d concurrent ones failed: %v", g, c.Conc, r.err)
+				} else if !bytes.Equal(r.b, out.Bytes()) {
+					o.Fail("C13:concurrent:archive-differs", "Tar call %d of %d concurrent ones wrote an archive (%d bytes) that differs from the one written by the call that ran alone (%d bytes)", g, c.Conc, len(r.b), out.Len())
+					break
+				}
+			}
+		}
 	case "disk":
 		dir := hx.Scratch("c13")
 		defer os.RemoveAll(dir)
@@ -420,7 +459,7 @@ var spec = &hx.Spec[Case]{
 		"tar source: the stream is in tar(1) order (parents first, depth first); with AddRoot the made-up root entry is not compared",
 		"mtime >= 0; uid/gid <= 2^32-2; device major < 2^12, minor < 2^20; unique names per directory",
 	},
-	Required: []string{"src:synth", "src:disk", "src:tar", "fanout:0", "fanout:1", "fanout:2", "fanout:3", "fanout:2^k-1", "fanout:2^k", "fanout:2^k+1",
+	Required: []string{"concurrent-tar", "src:synth", "src:disk", "src:tar", "fanout:0", "fanout:1", "fanout:2", "fanout:3", "fanout:2^k-1", "fanout:2^k", "fanout:2^k+1",
 		"depth>=3", "namelen:255", "xattrs", "kind:lnk", "kind:chr", "kind:blk", "order:unsorted"},
 	Gen: genCase,
 	Run: run,
